@@ -6,6 +6,7 @@ import json, os, subprocess, sys, time
 
 VERIF = os.path.dirname(os.path.dirname(os.path.abspath(__file__)))
 SEEDED = os.path.join(VERIF, "seeded")
+REPO = os.environ.get("VERIF_REPO", "/repo")
 
 
 def sh(cmd, **kw):
@@ -14,7 +15,7 @@ def sh(cmd, **kw):
 
 def main():
     ids = sys.argv[1:] or sorted(os.listdir(SEEDED))
-    if sh("git -C /repo status --porcelain").stdout.strip():
+    if sh("git -C %s status --porcelain" % REPO).stdout.strip():
         print("/repo is not clean")
         sys.exit(2)
     for mid in ids:
@@ -23,7 +24,7 @@ def main():
         if not os.path.exists(patch):
             continue
         meta = json.load(open(os.path.join(d, "meta.json")))
-        r = sh("git -C /repo apply %s" % patch)
+        r = sh("git -C %s apply %s" % (REPO, patch))
         if r.returncode != 0:
             print(mid, "patch does not apply:", r.stdout[-300:])
             continue
@@ -31,7 +32,7 @@ def main():
         try:
             out = sh("python3 %s/bin/check.py --survey --tier quick" % VERIF, cwd=VERIF, timeout=1800).stdout
         finally:
-            sh("git -C /repo checkout -- .")
+            sh("git -C %s checkout -- ." % REPO)
         res = {}
         for line in out.splitlines():
             if line.startswith("SURVEY "):
